@@ -1,6 +1,5 @@
 """C14 mutants: breaking edits that still compile (must be reported by the named rule) and benign
-edits (must stay silent).  Run with the known SHORT-READ finding tolerated:
-    VERIF_KNOWN_EXTRA=<file with the C14 finding line> python3 selftest/run.py C14
+edits (must stay silent).  Based on /repo after the short-read repair (db96ff4): python3 selftest/run.py C14
 edits: (file, old text occurring exactly once, new text)."""
 
 I16 = " " * 16
@@ -27,7 +26,24 @@ DEC4_BODY = (
     "        [b0, b1, b2]\n"
 )
 
-READ_OLD = (
+# current text of buffer_fill (after the repair db96ff4 in /repo)
+READ_NOW = (
+    "            // the inner reader may return fewer bytes than requested: keep reading\n"
+    "            // until a full quantum is collected or the end of input is reached\n"
+    "            let mut filled = 0;\n"
+    "            while filled < input.len() {\n"
+    "                let size = self.read.read(&mut input[filled..])?;\n"
+    "                if size == 0 {\n"
+    "                    break;\n"
+    "                }\n"
+    "                filled += size;\n"
+    "            }\n"
+    "            if filled == 0 {\n"
+    "                break;\n"
+    "            } else if filled != 4 {\n"
+)
+# the original defect: one read, any count other than 0/4 is an error
+READ_ORIG = (
     "            let size = self.read.read(&mut input)?;\n"
     "            if size == 0 {\n"
     "                break;\n"
@@ -49,7 +65,7 @@ READ_FIXED = (
 # accumulates but reads only once more instead of looping: still fails for 1-byte readers
 READ_HALF_FIXED = READ_FIXED.replace("while filled < 4 {", "if filled < 4 {").replace(
     "                if size == 0 {\n                    break;\n                }\n", "")
-# `match` form of the fix
+# `match` form of the repair
 READ_FIXED_MATCH = (
     "            let mut filled = 0;\n"
     "            while filled < input.len() {\n"
@@ -131,25 +147,29 @@ MUTANTS = [
     {"id": "C14-fill-size-plus-3", "prop": "C14", "expect": "DEC-USE",
      "edits": [("src/decoder.rs", "            self.buffer_size += out_size;\n", "            self.buffer_size += 3;\n")]},
     # ---------------- (d) short reads ----------------
+    {"id": "C14-orig-short-read", "prop": "C14", "expect": "SHORT-READ/decoder::Base64Decoder::<R>::buffer_fill/short-read-is-error",
+     "edits": [("src/decoder.rs", READ_NOW, READ_ORIG)]},
     {"id": "C14-half-fix-no-retry-loop", "prop": "C14", "expect": "SHORT-READ/decoder::Base64Decoder::<R>::buffer_fill/partial-count-without-retry-loop",
-     "edits": [("src/decoder.rs", READ_OLD, READ_HALF_FIXED)]},
+     "edits": [("src/decoder.rs", READ_NOW, READ_HALF_FIXED)]},
+    {"id": "C14-retry-loop-stops-at-2", "prop": "C14", "expect": "SHORT-READ/decoder::Base64Decoder::<R>::buffer_fill/partial-count-without-retry-loop",
+     "edits": [("src/decoder.rs", "while filled < input.len() {", "while filled < 2 {")]},
     # ---------------- (e) length error ----------------
     {"id": "C14-len-error-unreachable", "prop": "C14", "expect": "LEN-ERROR",
-     "edits": [("src/decoder.rs", "} else if size != 4 {", "} else if size > 4 {")]},
+     "edits": [("src/decoder.rs", "} else if filled != 4 {", "} else if filled > 4 {")]},
     {"id": "C14-len-silent-truncate", "prop": "C14", "expect": "LEN-ERROR",
      "edits": [("src/decoder.rs", LEN_ERR, "break;")]},
     {"id": "C14-len-error-on-eof-too", "prop": "C14", "expect": "LEN-ERROR",
-     "edits": [("src/decoder.rs", "            if size == 0 {\n                break;\n            } else if size != 4 {", "            if size != 4 {")]},
+     "edits": [("src/decoder.rs", "            if filled == 0 {\n                break;\n            } else if filled != 4 {", "            if filled != 4 {")]},
     {"id": "C14-len-error-only-for-odd", "prop": "C14", "expect": "LEN-ERROR",
-     "edits": [("src/decoder.rs", "} else if size != 4 {", "} else if size != 4 && size != 2 {")]},
+     "edits": [("src/decoder.rs", "} else if filled != 4 {", "} else if filled != 4 && filled != 2 {")]},
     {"id": "C14-read-swallows-fill-error", "prop": "C14", "expect": "LEN-ERROR",
      "edits": [("src/decoder.rs", "                self.buffer_fill()?;\n", "                let _ = self.buffer_fill();\n")]},
 
     # ---------------- benign ----------------
-    {"id": "C14-benign-fix-retry-loop", "prop": "C14", "benign": True,
-     "edits": [("src/decoder.rs", READ_OLD, READ_FIXED)]},
-    {"id": "C14-benign-fix-retry-loop-match", "prop": "C14", "benign": True,
-     "edits": [("src/decoder.rs", READ_OLD, READ_FIXED_MATCH)]},
+    {"id": "C14-benign-retry-loop-literal-4", "prop": "C14", "benign": True,
+     "edits": [("src/decoder.rs", READ_NOW, READ_FIXED)]},
+    {"id": "C14-benign-retry-loop-match", "prop": "C14", "benign": True,
+     "edits": [("src/decoder.rs", READ_NOW, READ_FIXED_MATCH)]},
     {"id": "C14-benign-rename-encoder-locals", "prop": "C14", "benign": True,
      "edits": [("src/encoder.rs", WRITE_BLOCK,
                 WRITE_BLOCK.replace("s0", "first").replace("s1", "second").replace("s2", "third").replace("dst", "quad")),
